@@ -252,15 +252,15 @@ def sample_n_random_actions(td: TensorDict, n: int):
     valid actions
     """
     action_mask = td["action_mask"]
-    # check whether to use replacement or not
-    n_valid_actions = torch.sum(action_mask[:, 1:], 1).min()
-    if n_valid_actions < n:
-        replace = True
-    else:
-        replace = False
+    # check whether to use replacement or not: decided per instance, so that an instance with at
+    # least n valid actions gets n distinct ones whatever its batch-mates offer
+    n_valid_actions = torch.sum(action_mask[:, 1:], 1)
+    replace = n_valid_actions < n
     ps = torch.rand((action_mask.shape))
     ps[~action_mask] = -torch.inf
     ps = torch.softmax(ps, dim=1)
-    selected = torch.multinomial(ps, n, replacement=replace).squeeze(1)
+    selected = torch.multinomial(ps, n, replacement=True)
+    if (~replace).any():
+        selected[~replace] = torch.multinomial(ps[~replace], n, replacement=False)
     selected = rearrange(selected, "b n -> (n b)")
     return selected.to(td.device)
